@@ -367,17 +367,17 @@ theorem step_rotate (hfk : fk.aesOK = true) :
       rw [← termKey_congr hk] at hk0
       exact sub_next kr krwf fk t k0 hk0
     by_cases hroot : kr.root.aesOK = true
-    · simp [hs, hkr, addKey_next kr krwf fk, persist, hroot, hact, hfk, applyWrites, applyWrite, updShadow]
+    · simp [hs, hkr, addKey_next kr krwf fk, persistNs_eq, hroot, hact, hfk, applyWrites, applyWrite, foldl_legacyDel, updShadow]
       refine ⟨kr.root, _, ?_, ?_, h4, ?_, ?_, ?_, hsubK⟩
       · exact ((h.put_keyring kr.root _ hsubK rfl hroot (wf_next kr krwf fk hfk)).put_meta .rootKey _ fk _
-          (by simp) (by simp) hact (fun _ => ⟨_, rfl⟩) (by intro u hu; cases hu)).del_meta .legacy (by simp) (by simp) (by simp)
-      · exact ⟨fk, hact, by rw [get_del_other _ _ _ (by simp), get_put_same]⟩
+          (by simp) (by simp) hact (fun _ => ⟨_, rfl⟩) (by intro u hu; cases hu)).legTail ns
+      · exact ⟨fk, hact, by rw [get_legTail_other _ _ _ (by simp), get_put_same]⟩
       · simp [SealedIff] <;> simpa using hs
       · intro kr' hkr'; simp at hkr'; subst hkr'
         have wf' := wf_next kr krwf fk hfk
         exact ⟨fun _ _ x => x, fun t k0 hk0 => (wf'.2 t k0 hk0).2.1, wf'.1, h4⟩
       · intro kr' hkr'; simp at hkr'; subst hkr'; exact ⟨rfl, rfl⟩
-    · simp [hs, hkr, addKey_next kr krwf fk, persist, hroot, applyWrites, updShadow]
+    · simp [hs, hkr, addKey_next kr krwf fk, persistNs_eq, hroot, applyWrites, updShadow]
       exact ⟨rk, KR, h, hc, hrk, hsi.flags (by first | rfl | (simp only [hkr]; done) | simpa using hs | simp_all) (by first | rfl | (simp only [hkr]; done) | simpa using hs | simp_all), hsub.flags (by first | rfl | (simp only [hkr]; done) | simpa using hs | simp_all), hsy.flags (by first | rfl | (simp only [hkr]; done) | simpa using hs | simp_all), fun _ _ x => x⟩
 
 theorem step_rotroot (k : Key) :
@@ -402,16 +402,16 @@ theorem step_rotroot (k : Key) :
       have wf' : ({ kr with root := k } : Keyring).WF := WF_congr rfl rfl krwf
       have hak' : ({ kr with root := k } : Keyring).termKey kr.active = some ak := hak
       by_cases hroot : k.aesOK = true
-      · simp [hs, hsz, hkr, persist, hroot, hak', hakok, applyWrites, applyWrite, updShadow]
+      · simp [hs, hsz, hkr, persistNs_eq, hroot, hak', hakok, applyWrites, applyWrite, foldl_legacyDel, updShadow]
         refine ⟨k, _, ?_, ?_, by simp, ?_, ?_, ?_, hsubK⟩
         · exact ((h.put_keyring k _ hsubK rfl hroot wf').put_meta .rootKey _ ak _
-            (by simp) (by simp) hak' (fun _ => ⟨_, rfl⟩) (by intro u hu; cases hu)).del_meta .legacy (by simp) (by simp) (by simp)
-        · exact ⟨ak, hak', by rw [get_del_other _ _ _ (by simp), get_put_same]⟩
+            (by simp) (by simp) hak' (fun _ => ⟨_, rfl⟩) (by intro u hu; cases hu)).legTail ns
+        · exact ⟨ak, hak', by rw [get_legTail_other _ _ _ (by simp), get_put_same]⟩
         · simp [SealedIff] <;> simpa using hs
         · intro kr' hkr'; simp at hkr'; subst hkr'
           exact ⟨fun _ _ x => x, fun t k0 hk0 => (wf'.2 t k0 hk0).2.1, wf'.1, by simp⟩
         · intro kr' hkr'; simp at hkr'; subst hkr'; exact ⟨rfl, rfl⟩
-      · simp [hs, hsz, hkr, persist, hroot, applyWrites, updShadow]
+      · simp [hs, hsz, hkr, persistNs_eq, hroot, applyWrites, updShadow]
         exact ⟨rk, KR, h, hc, mono _ hrk, hsi.flags (by first | rfl | (simp only [hkr]; done) | simpa using hs | simp_all) (by first | rfl | (simp only [hkr]; done) | simpa using hs | simp_all), (hsub.mono mono).flags (by first | rfl | (simp only [hkr]; done) | simpa using hs | simp_all), hsy.flags (by first | rfl | (simp only [hkr]; done) | simpa using hs | simp_all), fun _ _ x => x⟩
     · simp [hs, hsz, applyWrites, updShadow]; exact same
 
@@ -420,12 +420,12 @@ end ops3
 
 /-- re-persisting a keyring `nkr` that has the stored terms (the bookkeeping tick, `SetRotationConfig`): the store is
 consistent again under `nkr.root`, with `nkr` as the stored keyring -/
-theorem repersist {p : Phys} {sh : List (String × String)} {rk : Key} {KR : Keyring} (b : Barrier)
+theorem repersist {p : Phys} {sh : List (String × String)} {rk : Key} {KR : Keyring} (ns : Bool) (b : Barrier)
     (h : PInv p sh rk KR) (hsy : SyncK b KR) {kr : Keyring} (hkr : b.keyring = some kr) (nkr : Keyring) (hk : nkr.keys = kr.keys) (ha : nkr.active = kr.active)
     (hroot : nkr.root.aesOK = true) :
-    ∃ ak, persist nkr = ([.put .keyring (.enc 1 nkr.root .keyring (.keyring nkr)),
-            .put .rootKey (.enc nkr.active ak .rootKey (.val (.keyrec 1 nkr.root))), .del .legacy], .ok) ∧
-      PInv (applyWrites p (persist nkr).1) sh nkr.root nkr ∧ Coherent (applyWrites p (persist nkr).1) nkr.root nkr ∧
+    ∃ ak, persistNs ns nkr = (.put .keyring (.enc 1 nkr.root .keyring (.keyring nkr)) ::
+            .put .rootKey (.enc nkr.active ak .rootKey (.val (.keyrec 1 nkr.root))) :: legacyDel ns, .ok) ∧
+      PInv (applyWrites p (persistNs ns nkr).1) sh nkr.root nkr ∧ Coherent (applyWrites p (persistNs ns nkr).1) nkr.root nkr ∧
       KR.Sub nkr ∧ nkr.WF := by
   obtain ⟨hk0, ha0⟩ := hsy kr hkr
   have wf' : nkr.WF := WF_congr (hk.trans hk0) (ha.trans ha0) h.wf
@@ -435,17 +435,17 @@ theorem repersist {p : Phys} {sh : List (String × String)} {rk : Key} {KR : Key
     intro t k0 hk0'
     rw [← termKey_congr (hk.trans hk0)] at hk0'
     exact hk0'
-  have hp : persist nkr = ([.put .keyring (.enc 1 nkr.root .keyring (.keyring nkr)),
-            .put .rootKey (.enc nkr.active ak .rootKey (.val (.keyrec 1 nkr.root))), .del .legacy], .ok) := by
-    simp [persist, hroot, hak, hakok]
+  have hp : persistNs ns nkr = (.put .keyring (.enc 1 nkr.root .keyring (.keyring nkr)) ::
+            .put .rootKey (.enc nkr.active ak .rootKey (.val (.keyrec 1 nkr.root))) :: legacyDel ns, .ok) := by
+    simp [persistNs_eq, hroot, hak, hakok]
   refine ⟨ak, hp, ?_, ?_, hsubK, wf'⟩
   · rw [hp]
-    simp only [applyWrites, List.foldl_cons, List.foldl_nil, applyWrite]
+    simp only [applyWrites, List.foldl_cons, foldl_legacyDel, applyWrite]
     exact ((h.put_keyring nkr.root nkr hsubK rfl hroot wf').put_meta .rootKey _ ak _
-      (by simp) (by simp) hak (fun _ => ⟨_, rfl⟩) (by intro u hu; cases hu)).del_meta .legacy (by simp) (by simp) (by simp)
+      (by simp) (by simp) hak (fun _ => ⟨_, rfl⟩) (by intro u hu; cases hu)).legTail ns
   · rw [hp]
-    simp only [applyWrites, List.foldl_cons, List.foldl_nil, applyWrite]
-    exact ⟨ak, hak, by rw [get_del_other _ _ _ (by simp), get_put_same]⟩
+    simp only [applyWrites, List.foldl_cons, foldl_legacyDel, applyWrite]
+    exact ⟨ak, hak, by rw [get_legTail_other _ _ _ (by simp), get_put_same]⟩
 
 
 section ops4
@@ -469,7 +469,7 @@ theorem step_tick :
     · simp [hhot, applyWrites, updShadow]; exact same
     · by_cases hd : b.dirty = true
       · by_cases hroot : kr.root.aesOK = true
-        · obtain ⟨ak, hp, g1, g2, g3, g4⟩ := repersist b h hsy hkr kr rfl rfl hroot
+        · obtain ⟨ak, hp, g1, g2, g3, g4⟩ := repersist ns b h hsy hkr kr rfl rfl hroot
           rw [hp] at g1 g2
           simp only [hhot, hs, hd, hp, updShadow]
           simp only [Bool.false_eq_true, if_false, Bool.not_true]
@@ -478,7 +478,7 @@ theorem step_tick :
           · intro kr' hkr'; simp [hkr] at hkr'; subst hkr'
             exact ⟨fun _ _ x => x, h2, h3, h4⟩
           · intro kr' hkr'; simp [hkr] at hkr'; subst hkr'; exact ⟨rfl, rfl⟩
-        · simp [hhot, hs, hd, persist, hroot, applyWrites, updShadow]; exact same
+        · simp [hhot, hs, hd, persistNs_eq, hroot, applyWrites, updShadow]; exact same
       · simp [hhot, hs, hd, applyWrites, updShadow]; exact same
 
 theorem step_setrot (d : Nat) :
@@ -495,7 +495,7 @@ theorem step_setrot (d : Nat) :
     by_cases hd : d = kr.rot
     · simp [hd, applyWrites, updShadow]; exact same
     · by_cases hroot : kr.root.aesOK = true
-      · obtain ⟨ak, hp, g1, g2, g3, g4⟩ := repersist b h hsy hkr { kr with rot := d } rfl rfl hroot
+      · obtain ⟨ak, hp, g1, g2, g3, g4⟩ := repersist ns b h hsy hkr { kr with rot := d } rfl rfl hroot
         rw [hp] at g1 g2
         simp only [hd, hp, updShadow, if_false]
         refine ⟨kr.root, { kr with rot := d }, g1, g2, h4, ?_, ?_, ?_, g3⟩
@@ -504,7 +504,7 @@ theorem step_setrot (d : Nat) :
           exact ⟨fun _ _ x => x, h2, h3, h4⟩
         · intro kr' hkr'; simp at hkr'; subst hkr'; exact ⟨rfl, rfl⟩
       · -- the root key is unusable: nothing is written, only the in-memory configuration changed
-        simp [hd, persist, hroot, applyWrites, updShadow]
+        simp [hd, persistNs_eq, hroot, applyWrites, updShadow]
         refine ⟨rk, KR, h, hc, hrk, ?_, ?_, ?_, fun _ _ x => x⟩
         · simp [SealedIff, hs]
         · intro kr' hkr'; simp at hkr'; subst hkr'
